@@ -29,7 +29,7 @@ def make_index(kind, n):
         return pd.Index([i // 2 for i in range(n)], dtype="int64")
     if kind == "str":
         return pd.Index([f"r{(n - i) % 7}_{i}" for i in range(n)], dtype=object)
-    if kind == "multi":
+    if kind in ("multi", "multi_intnames"):
         return pd.MultiIndex.from_arrays([[i % 2 for i in range(n)], [f"x{i}" for i in range(n)]], names=["a", "b"])
     raise ValueError(kind)
 
